@@ -1,7 +1,7 @@
 //! C10 harness: document synchronisation vs plain-string splice.
 //!
 //! usage: c10 <mode> <seed> <n> <cases_out> <impl_out>
-//!   mode = exhaustive3 | exhaustive4 | random | file:<path>
+//!   mode = exhaustive3 | exhaustive4 | random | emptystart | file:<path>
 //! cases_out: one case per line `doc|edit;edit;...` (see ocaml/c10_run.ml)
 //! impl_out : per case `states|oracle|flags` — the implementation's line buffer after every edit
 //!            (`PANIC` from the first panicking edit on), the independent plain-`Vec<char>` splice oracle
@@ -308,6 +308,158 @@ fn random_case(rng: &mut Rng) -> (Vec<char>, Vec<Edit>) {
     (doc, edits)
 }
 
+// ---------- histories that pass through an EMPTY document ----------
+/// Text with ASCII runs around non-ASCII characters of every UTF-8 width (2, 3 and 4 bytes; the
+/// 4-byte ones take two UTF-16 units), so that positions BEHIND such a character on its line have
+/// a UTF-16 offset that is a valid but different byte offset (silent mis-splice, no panic, should
+/// the implementation ever confuse the two) as well as offsets inside a multi-byte sequence.
+fn nonascii_text(rng: &mut Rng, multiline: bool) -> Vec<char> {
+    const WIDE: [char; 8] = ['ä', 'é', 'ß', '€', '→', '😀', '𝄞', 'Ω'];
+    const WORDS: [&str; 8] = ["-- Z", "hler", "abc", " x", "signal s", ";", "r", " := 1"];
+    let mut out: Vec<char> = Vec::new();
+    let lines = if multiline { 1 + rng.below(3) } else { 1 };
+    for l in 0..lines {
+        if l > 0 {
+            match rng.below(4) {
+                0 => out.extend(['\r', '\n']),
+                1 => out.push('\r'),
+                _ => out.push('\n'),
+            }
+        }
+        let groups = 1 + rng.below(3);
+        for _ in 0..groups {
+            if rng.below(4) != 0 {
+                out.extend(rng.pick(&WORDS).chars());
+            }
+            out.push(*rng.pick(&WIDE));
+            if rng.below(3) == 0 {
+                out.push(*rng.pick(&WIDE));
+            }
+            // an ASCII tail: the interesting edit positions lie in or behind it
+            if rng.below(5) != 0 {
+                out.extend(rng.pick(&WORDS).chars());
+            }
+        }
+    }
+    if multiline && rng.below(3) == 0 {
+        out.push('\n');
+    }
+    out
+}
+
+/// A position on an existing line of the normalised text `s`, at a UTF-16 column anywhere in the
+/// line with a bias towards the columns behind its LAST non-ASCII character (and the line end).
+fn pos_behind_wide(rng: &mut Rng, s: &[char]) -> (u32, u32) {
+    let lines: Vec<&[char]> = s.split(|c| *c == '\n').collect();
+    // prefer lines that hold a non-ASCII character
+    let wide: Vec<usize> = (0..lines.len())
+        .filter(|i| lines[*i].iter().any(|c| !c.is_ascii()))
+        .collect();
+    let li = if !wide.is_empty() && rng.below(6) != 0 {
+        *rng.pick(&wide)
+    } else {
+        rng.below(lines.len())
+    };
+    let line = lines[li];
+    let len16: u32 = line.iter().map(|c| c.len_utf16() as u32).sum();
+    let mut behind = 0u32; // column just behind the last non-ASCII character
+    let mut col = 0u32;
+    for c in line {
+        col += c.len_utf16() as u32;
+        if !c.is_ascii() {
+            behind = col;
+        }
+    }
+    let character = match rng.below(10) {
+        0 => rng.below(len16 as usize + 3) as u32,
+        1 => len16,
+        2 => len16 + 1 + rng.below(3) as u32,
+        _ => behind + rng.below((len16 - behind) as usize + 1) as u32,
+    };
+    (li as u32, character)
+}
+
+fn emptystart_case(rng: &mut Rng) -> (Vec<char>, Vec<Edit>) {
+    let mut edits = Vec::new();
+    // (1) reach the empty document: a new empty file, select-all + delete (ranged, exact end or
+    // far beyond it), or a full-text change to ""
+    let doc: Vec<char> = match rng.below(4) {
+        0 | 1 => Vec::new(),
+        _ => {
+            if rng.below(2) == 0 {
+                random_text(rng, 10)
+            } else {
+                nonascii_text(rng, true)
+            }
+        }
+    };
+    let mut s = normalize(&doc);
+    if !doc.is_empty() || rng.below(6) == 0 {
+        let e = match rng.below(5) {
+            0 => Edit::Full(Vec::new()),
+            // (model line numbers are Peano numbers: keep lines small, characters may be huge)
+            1 => Edit::Ranged(0, 0, 1000, 0, Vec::new()),
+            2 => Edit::Ranged(0, 0, 60, 4_294_967_295, Vec::new()),
+            _ => {
+                // the exact end of the text, as an editor sends it
+                let nl = s.iter().filter(|c| **c == '\n').count() as u32;
+                let last: u32 = s
+                    .rsplit(|c| *c == '\n')
+                    .next()
+                    .unwrap_or(&[])
+                    .iter()
+                    .map(|c| c.len_utf16() as u32)
+                    .sum();
+                Edit::Ranged(0, 0, nl, last, Vec::new())
+            }
+        };
+        s = oracle_step(&s, &e);
+        edits.push(e);
+    }
+    // (2) a RANGED insert of non-ASCII text into the empty document (any position denotes its end)
+    let multiline = rng.below(2) == 0;
+    let t = nonascii_text(rng, multiline);
+    let e = match rng.below(4) {
+        0 => Edit::Ranged(0, 0, 0, 0, t),
+        1 => Edit::Ranged(0, 0, 0, rng.below(4) as u32, t),
+        2 => Edit::Ranged(rng.below(3) as u32, rng.below(5) as u32, 3, 0, t),
+        _ => Edit::Ranged(0, 0, 0, 0, t),
+    };
+    s = oracle_step(&s, &e);
+    edits.push(e);
+    // (3) further ranged edits behind those characters: typing, replacing, deleting
+    for _ in 0..1 + rng.below(5) {
+        if s.is_empty() {
+            let e = Edit::Ranged(0, 0, 0, 0, nonascii_text(rng, false));
+            s = oracle_step(&s, &e);
+            edits.push(e);
+            continue;
+        }
+        let p = pos_behind_wide(rng, &s);
+        let q = match rng.below(4) {
+            0 | 1 => p,
+            2 => (p.0, p.1 + 1 + rng.below(3) as u32),
+            _ => pos_behind_wide(rng, &s),
+        };
+        let (p, q) = if q < p { (q, p) } else { (p, q) };
+        let t: Vec<char> = match rng.below(6) {
+            0 => Vec::new(),
+            1 => nonascii_text(rng, false),
+            2 => vec!['\n'],
+            3 => random_text(rng, 4),
+            _ => rng.pick(&["!", "r", "xy", " -- c", "0"]).chars().collect(),
+        };
+        let e = if q == p && t.is_empty() {
+            Edit::Ranged(p.0, p.1, q.0, q.1, vec!['!'])
+        } else {
+            Edit::Ranged(p.0, p.1, q.0, q.1, t)
+        };
+        s = oracle_step(&s, &e);
+        edits.push(e);
+    }
+    (doc, edits)
+}
+
 fn parse_case(line: &str) -> Option<(Vec<char>, Vec<Edit>)> {
     let mut parts = line.split('|');
     let doc = parts.next()?;
@@ -368,6 +520,12 @@ fn main() {
         let mut rng = Rng::new(seed);
         for _ in 0..n {
             let (doc, edits) = random_case(&mut rng);
+            emit(&doc, &edits);
+        }
+    } else if mode == "emptystart" {
+        let mut rng = Rng::new(seed ^ 0x5eed_e3b7);
+        for _ in 0..n {
+            let (doc, edits) = emptystart_case(&mut rng);
             emit(&doc, &edits);
         }
     } else if let Some(path) = mode.strip_prefix("file:") {
